@@ -46,15 +46,15 @@ impl<'de, R: Reader<'de>> Parser<R> {
                 proof { lemma_ws_end_stop(s, i0, reader.idx() - 1); }
 //@before /return Some\(ch\);/ #5
                 proof { lemma_ws_end_stop(s, reader.idx() - 1, reader.idx() - 1); }
-//@after /let nospace_offset = \(reader.index\(\) as isize\) - self.nospace_start;/
+//@after /let nospace_offset =/
         proof {
             // both fast-path reads saw whitespace or the end of input
             assert(forall|j: int| i0 <= j < reader.idx() ==> is_ws(#[trigger] s[j]));
             lemma_ws_run(s, i0, reader.idx() - i0);
         }
-//@before /let mask = !\(\(1 << nospace_offset\) - 1\);/
+//@before /let mask =/
                 proof { lemma_shl_ge1(nospace_offset as u64); }
-//@after /let cnt = bitmap.trailing_zeros\(\) as usize;/
+//@after /let cnt =/
                 proof {
                     lemma_tz64(bitmap);
                     let off = nospace_offset as u64;
@@ -70,7 +70,7 @@ impl<'de, R: Reader<'de>> Parser<R> {
                     assert(!is_ws(s[st + cnt])) by { assert(bit64(bitmap, cnt as int)); assert(bit64(self.nospace_bits, cnt as int)); }
                     lemma_ws_end_stop(s, reader.idx() as int, st + cnt);
                 }
-//@before /reader.set_index\(self.nospace_start as usize \+ 64\);/
+//@before /reader\.set_index\(/ #2
                 proof {
                     let off = nospace_offset as u64;
                     let st = self.nospace_start as int;
@@ -97,7 +97,7 @@ impl<'de, R: Reader<'de>> Parser<R> {
                     assert(chunk@[j] == s[reader.idx() + j]);
                 }
             }
-//@after /self.nospace_start = reader.index\(\) as isize;/
+//@after /self\.nospace_start =/
                 proof {
                     lemma_tz64(bitmap);
                     let c = vstd::std_specs::bits::u64_trailing_zeros(bitmap) as int;
@@ -107,7 +107,7 @@ impl<'de, R: Reader<'de>> Parser<R> {
                     assert(!is_ws(s[reader.idx() + c])) by { assert(bit64(bitmap, c)); }
                     lemma_ws_end_stop(s, reader.idx() as int, reader.idx() + c);
                 }
-//@before /reader.eat\(64\)/
+//@before /reader\.eat\(/ #2
             proof {
                 assert forall|j: int| reader.idx() <= j < reader.idx() + 64 implies is_ws(#[trigger] s[j]) by {
                     lemma_zero64((j - reader.idx()) as u64);
